@@ -1,0 +1,98 @@
+//go:build verif
+
+// C12: the extraction builtins - which text goes into the engine, where each extracted value
+// goes, and that a failure leaves the point alone (comment-only; read by /verif/plvc).
+
+package funcs
+
+// ---- grok ----------------------------------------------------------------------------------
+
+// load time: the pattern text is compiled against the patterns visible from the checking task
+// (its scope chain, then the global table - runtime.(*Task).GetPattern); a pattern that does not
+// compile - e.g. an unknown pattern name - is rejected; the compiled form is cached on the call
+//@ func GrokChecking
+//@ ensures[C12] old(funcExpr.Grok) != nil ==> result == nil && funcExpr.Grok == old(funcExpr.Grok) && ncalls(grok.CompilePattern) == 0
+//@ ensures[C12] ncalls(grok.CompilePattern) <= 1
+//@ ensures[C12] ncalls(grok.CompilePattern) == 1 ==> callarg(grok.CompilePattern, 0, 0) == funcExpr.Param[1].elem.(*ast.StringLiteral).Val && typeis(callarg(grok.CompilePattern, 0, 1), *runtime.Task) && callarg(grok.CompilePattern, 0, 1).(*runtime.Task) == ctx
+//@ ensures[C12] ncalls(grok.CompilePattern) == 1 && callres(grok.CompilePattern, 0, 1) != nil ==> result != nil && funcExpr.Grok == old(funcExpr.Grok)
+//@ ensures[C12] old(funcExpr.Grok) == nil && result == nil ==> ncalls(grok.CompilePattern) == 1 && funcExpr.Grok == callres(grok.CompilePattern, 0, 0)
+
+// run time: the subject's text goes through the cached expression (trim_space: the third
+// argument, default true); no subject, or no match: false is returned and nothing is written;
+// a match: every capture is written under its name with the type of the captured value, and
+// true is returned
+//@ func Grok
+//@ ensures[C12] ncalls((*PlReg).ReturnAppend) == 1 && callarg((*PlReg).ReturnAppend, 0, 2) == ast.Bool && typeis(callarg((*PlReg).ReturnAppend, 0, 1), bool)
+//@ ensures[C12] ncalls((*Task).GetKeyConv2Str) == 1 && callres((*Task).GetKeyConv2Str, 0, 1) != nil ==> result == nil && !callarg((*PlReg).ReturnAppend, 0, 1).(bool) && ncalls(addKey2PtWithVal) == 0
+//@ ensures[C12] ncalls((*grok.GrokRegexp).RunWithTypeInfo) <= 1
+//@ ensures[C12] ncalls((*grok.GrokRegexp).RunWithTypeInfo) == 1 ==> callarg((*grok.GrokRegexp).RunWithTypeInfo, 0, 0) == old(funcExpr.Grok) && callarg((*grok.GrokRegexp).RunWithTypeInfo, 0, 1) == callres((*Task).GetKeyConv2Str, 0, 0)
+//@ ensures[C12] ncalls((*grok.GrokRegexp).RunWithTypeInfo) == 1 && len(funcExpr.Param) != 3 ==> callarg((*grok.GrokRegexp).RunWithTypeInfo, 0, 2)
+//@ ensures[C12] ncalls((*grok.GrokRegexp).RunWithTypeInfo) == 1 && len(funcExpr.Param) == 3 ==> callarg((*grok.GrokRegexp).RunWithTypeInfo, 0, 2) == funcExpr.Param[2].elem.(*ast.BoolLiteral).Val
+//@ ensures[C12] ncalls((*grok.GrokRegexp).RunWithTypeInfo) == 1 && callres((*grok.GrokRegexp).RunWithTypeInfo, 0, 2) != nil ==> result == nil && !callarg((*PlReg).ReturnAppend, 0, 1).(bool) && ncalls(addKey2PtWithVal) == 0
+//@ ensures[C12] result == nil && callarg((*PlReg).ReturnAppend, 0, 1).(bool) ==> ncalls((*grok.GrokRegexp).RunWithTypeInfo) == 1 && callres((*grok.GrokRegexp).RunWithTypeInfo, 0, 2) == nil
+//@ ensures[C12] forall j mathint :: 0 <= j && j < ncalls(addKey2PtWithVal) ==> callarg(addKey2PtWithVal, j, 4) == input.KindPtDefault
+//@ ensures[C12] forall j mathint :: 0 <= j && j < ncalls(addKey2PtWithVal) ==> capType(callarg(addKey2PtWithVal, j, 2), callarg(addKey2PtWithVal, j, 3))
+//@ loop 1
+//@ invariant[C12] ncalls((*PlReg).ReturnAppend) == 0
+//@ invariant[C12] forall j mathint :: 0 <= j && j < ncalls(addKey2PtWithVal) ==> callarg(addKey2PtWithVal, j, 4) == input.KindPtDefault
+//@ invariant[C12] forall j mathint :: 0 <= j && j < ncalls(addKey2PtWithVal) ==> capType(callarg(addKey2PtWithVal, j, 2), callarg(addKey2PtWithVal, j, 3))
+
+// a capture is stored with the type of its Go value
+//@ spec capType(v any, t ast.DType) bool = (v == nil ==> t == ast.Nil) && (typeis(v, int64) ==> t == ast.Int) && (typeis(v, float64) ==> t == ast.Float) && (typeis(v, string) ==> t == ast.String) && (typeis(v, bool) ==> t == ast.Bool)
+
+// ---- default_time ---------------------------------------------------------------------------
+
+// no subject: nothing happens; a time that cannot be read (or a time-zone argument that is
+// not a string literal): the failure note is written and the point's time stays; otherwise the
+// key is dropped and the point's time is the parsed instant
+//@ func DefaultTime
+//@ ensures[C12] ncalls((*Task).GetKeyConv2Str) == 1 && callres((*Task).GetKeyConv2Str, 0, 1) != nil ==> result == nil && ncalls(TimestampHandle) == 0 && ncalls(usePointTime) == 0 && ncalls(setPointTime) == 0 && ncalls(deletePtKey) == 0
+//@ ensures[C12] ncalls(TimestampHandle) <= 1
+//@ ensures[C12] ncalls(TimestampHandle) == 1 ==> callarg(TimestampHandle, 0, 0) == callres((*Task).GetKeyConv2Str, 0, 0) && callarg(TimestampHandle, 0, 1) == (len(funcExpr.Param) > 1 ? funcExpr.Param[1].elem.(*ast.StringLiteral).Val : "")
+//@ ensures[C12] ncalls(TimestampHandle) == 1 && callres(TimestampHandle, 0, 1) != nil ==> result == nil && ncalls(usePointTime) == 1 && ncalls(setPointTime) == 0 && ncalls(deletePtKey) == 0
+//@ ensures[C12] ncalls(TimestampHandle) == 1 && callres(TimestampHandle, 0, 1) == nil ==> ncalls(usePointTime) == 0 && ncalls(setPointTime) == 1 && callarg(setPointTime, 0, 1) == callres(time.Unix, 0, 0) && ncalls(deletePtKey) >= 1 && callarg(deletePtKey, 0, 1) == callres(getKeyName, 0, 0)
+
+// the failure note: one string field, and the time is set to itself
+//@ func usePointTime
+//@ ensures[C12] ncalls(addKey2PtWithVal) == 1 && callarg(addKey2PtWithVal, 0, 1) == runtime.PlRunInfoField && callarg(addKey2PtWithVal, 0, 3) == ast.String && callarg(addKey2PtWithVal, 0, 4) == input.KindPtDefault
+//@ ensures[C12] ncalls(setPointTime) == 1 && callarg(setPointTime, 0, 1) == callres(pointTime, 0, 0)
+
+//@ func setPointTime
+//@ ensures[C12] isPt(in) ==> result == nil && thePt(in).Time == tn && allKept(thePt(in)) && thePt(in).Measurement == old(thePt(in).Measurement)
+
+//@ func pointTime
+//@ ensures[C12] isPt(in) ==> result == thePt(in).Time
+
+// ---- sql_cover --------------------------------------------------------------------------------
+
+// the obfuscated text of the subject goes back under the same key; a text that cannot be
+// obfuscated, or an absent subject, writes nothing
+//@ func SQLCover
+//@ ensures[C12] ncalls((*Task).GetKeyConv2Str) == 1 && callres((*Task).GetKeyConv2Str, 0, 1) != nil ==> result == nil && ncalls(addKey2PtWithVal) == 0
+//@ ensures[C12] ncalls(obfuscatedResource) <= 1 && (ncalls(obfuscatedResource) == 1 ==> callarg(obfuscatedResource, 0, 1) == "sql" && callarg(obfuscatedResource, 0, 2) == callres((*Task).GetKeyConv2Str, 0, 0))
+//@ ensures[C12] ncalls(obfuscatedResource) == 1 && callres(obfuscatedResource, 0, 1) != nil ==> result == nil && ncalls(addKey2PtWithVal) == 0
+//@ ensures[C12] ncalls(obfuscatedResource) == 1 && callres(obfuscatedResource, 0, 1) == nil ==> strOut(callres(getKeyName, 0, 0), callres(obfuscatedResource, 0, 0))
+
+// ---- xml -----------------------------------------------------------------------------------------
+
+// xml(k, xpath, field): the text of the first node the XPath selects in the subject's text is
+// stored as a string under field; no subject, an unparsable document, a bad expression or no
+// matching node write nothing
+//@ func XML
+//@ ensures[C12] ncalls((*Task).GetKeyConv2Str) == 1 && callres((*Task).GetKeyConv2Str, 0, 1) != nil ==> result == nil && ncalls(addKey2PtWithVal) == 0
+//@ ensures[C12] ncalls((*Task).GetKeyConv2Str) <= 1 && (ncalls((*Task).GetKeyConv2Str) == 1 ==> callarg((*Task).GetKeyConv2Str, 0, 1) == callres(getKeyName, 0, 0))
+//@ ensures[C12] ncalls(strings.NewReader) == 1 ==> callarg(strings.NewReader, 0, 0) == callres((*Task).GetKeyConv2Str, 0, 0)
+//@ ensures[C12] ncalls(xmlquery.Parse) == 1 && callres(xmlquery.Parse, 0, 1) != nil ==> result == nil && ncalls(addKey2PtWithVal) == 0
+//@ ensures[C12] ncalls(xmlquery.Query) == 1 ==> callarg(xmlquery.Query, 0, 0) == callres(xmlquery.Parse, 0, 0) && callarg(xmlquery.Query, 0, 1) == funcExpr.Param[1].elem.(*ast.StringLiteral).Val
+//@ ensures[C12] ncalls(xmlquery.Query) == 1 && (callres(xmlquery.Query, 0, 1) != nil || callres(xmlquery.Query, 0, 0) == nil) ==> result == nil && ncalls(addKey2PtWithVal) == 0
+//@ ensures[C12] ncalls(addKey2PtWithVal) == 1 ==> ncalls((*xmlquery.Node).InnerText) == 1 && callarg((*xmlquery.Node).InnerText, 0, 0) == callres(xmlquery.Query, 0, 0) && strOut(callres(getKeyName, 1, 0), callres((*xmlquery.Node).InnerText, 0, 0))
+
+// ---- datetime ------------------------------------------------------------------------------------
+
+// datetime(k, precision, fmt): the formatted text goes back under k as a string; an absent
+// subject is a no-op; a value that cannot be formatted is a script error and writes nothing
+//@ func DateTime
+//@ ensures[C12] ncalls((*Task).GetKey) == 1 && callres((*Task).GetKey, 0, 1) != nil ==> result == nil && ncalls(addKey2PtWithVal) == 0
+//@ ensures[C12] ncalls(DateFormatHandle) <= 1 && (ncalls(DateFormatHandle) == 1 ==> callarg(DateFormatHandle, 0, 0) == callres((*Task).GetKey, 0, 0).Value && callarg(DateFormatHandle, 0, 1) == funcExpr.Param[1].elem.(*ast.StringLiteral).Val && callarg(DateFormatHandle, 0, 2) == funcExpr.Param[2].elem.(*ast.StringLiteral).Val)
+//@ ensures[C12] ncalls(DateFormatHandle) == 1 && callres(DateFormatHandle, 0, 1) != nil ==> result != nil && ncalls(addKey2PtWithVal) == 0
+//@ ensures[C12] ncalls(DateFormatHandle) == 1 && callres(DateFormatHandle, 0, 1) == nil ==> strOut(callres(getKeyName, 0, 0), callres(DateFormatHandle, 0, 0))
